@@ -148,11 +148,13 @@ func NewUDPPeer(ioc *sonic.IO, network string, addr string) (*UDPPeer, error) {
 	}
 
 	if err := socket.SetNonblocking(true); err != nil {
+		_ = socket.Close()
 		return nil, fmt.Errorf("cannot make socket nonblocking")
 	}
 
 	// Allow multiple sockets to bind to the same address.
 	if err := socket.ReusePort(true); err != nil {
+		_ = socket.Close()
 		return nil, fmt.Errorf("error on REUSE_PORT")
 	}
 
@@ -161,16 +163,19 @@ func NewUDPPeer(ioc *sonic.IO, network string, addr string) (*UDPPeer, error) {
 	// 192.168.0.1:1234 will fail because we already have somebody bound on port
 	// 1234 to all addresses, and 192.168.0.1 is part of those "all" addresses.
 	if err := socket.ReuseAddr(true); err != nil {
+		_ = socket.Close()
 		return nil, fmt.Errorf("error on socket REUSE_ADDR")
 	}
 
 	if err := socket.Bind(resolvedAddr.AddrPort()); err != nil {
+		_ = socket.Close()
 		return nil, fmt.Errorf(
 			"cannot bind socket to addr=%s err=%v", resolvedAddr, err)
 	}
 
 	sockAddr, err := syscall.Getsockname(socket.RawFd())
 	if err != nil {
+		_ = socket.Close()
 		return nil, fmt.Errorf("cannot get socket address err=%v", err)
 	}
 
@@ -193,6 +198,7 @@ func NewUDPPeer(ioc *sonic.IO, network string, addr string) (*UDPPeer, error) {
 		localAddr.Zone = addrPort.Addr().Zone()
 		ipv = 6
 	default:
+		_ = socket.Close()
 		return nil, fmt.Errorf("cannot resolve local socket address")
 	}
 
@@ -212,15 +218,18 @@ func NewUDPPeer(ioc *sonic.IO, network string, addr string) (*UDPPeer, error) {
 	if ipv == 4 {
 		p.outboundIP, err = ipv4.GetMulticastInterfaceAddr(p.socket)
 		if err != nil {
+			_ = socket.Close()
 			return nil, err
 		}
 
 		p.loop, err = ipv4.GetMulticastLoop(p.socket)
 		if err != nil {
+			_ = socket.Close()
 			return nil, err
 		}
 
 		if err := ipv4.SetMulticastAll(p.socket, false); err != nil {
+			_ = socket.Close()
 			return nil, err
 		}
 	}
